@@ -172,3 +172,6 @@ def run(ctx):
     from drivers import prio_common
     prio_common.run(ctx, quick)
     prio_common.run_topo(ctx, quick)
+    # growth next to C06: the A* routing mode as coded (AStar.tla)
+    from drivers import astar_common
+    astar_common.run(ctx, quick)
